@@ -26,6 +26,10 @@ type Invocation struct {
 	OutPath string `json:"out_path"`
 	// FlagOrder permutes the flags (0 = canonical order).
 	FlagOrder int `json:"flag_order,omitempty"`
+	// LinkTarget: the output path is a symbolic link to this ({W}-absolute) path,
+	// which does not exist yet: a successful run that writes through the link
+	// creates it, and that IS its output.
+	LinkTarget string `json:"link_target,omitempty"`
 }
 
 func (iv Invocation) Args() []string {
@@ -247,6 +251,11 @@ func FrameCheck(root string, s *Step, r *StepResult) []*Violation {
 					Summary: fmt.Sprintf("%s (%s, flags %s) changed the output path: %s", kind, r.Obs.Status, iv.FlagSet(), d)})
 			}
 			continue
+		}
+		if iv.LinkTarget != "" && okExit && !iv.Dry {
+			if lt, _ := filepath.Rel(root, w(root, iv.LinkTarget)); filepath.ToSlash(lt) == p {
+				continue
+			}
 		}
 		// a run that wrote its output may have created the directories leading to it
 		// (a tool that creates missing parents of -out does not violate the frame;
